@@ -60,7 +60,7 @@ def classify(c):
         # both sides wrote identical bytes and one also renamed: the silent equal-content merge records the current
         # paths as synced and the rename is never propagated
         return "G7-equal-content-merge-swallows-rename"
-    if c["property"] == "C14" and job.get("base") == "B4":
+    if c["property"] == "C14" and (job.get("base") == "B4" or job.get("phases")):
         # a name is re-used by a different object (folder renamed away / deleted, then a new object created under the old
         # name) and the old object's events are delivered late, duplicated or after the new object's create event
         return "G11-name-reuse-with-late-events"
